@@ -61,6 +61,7 @@ DEFAULT_KNOBS = dict(
     p_multi_group_name=0.0,
     p_from_any=0.0,
     p_event_obj=0.0,
+    p_event_decl=0.0,
     p_attach_style=0.0,
     p_awaitable=0.0,
     p_prop_guard=0.0,
@@ -199,6 +200,15 @@ def gen_program(rnd, k, idx=0, name=None):
             if e not in events:
                 events.append(e)
         prog["any"] = anyd
+    if rnd.random() < k["p_event_decl"]:
+        # events declared as stand-alone ``ev = Event(name=...)`` attributes (no id: it comes from the
+        # attribute) and handed to the transitions through ``event=``, alone or in a list
+        free_ev = [e for e in events if e not in seen_assign and any(e in t["events"] for t in trans)]
+        rnd.shuffle(free_ev)
+        decl = free_ev[: rnd.randint(1, 2)]
+        if decl:
+            prog["event_decl"] = sorted(decl)
+            seen_assign.update(decl)
     for t in trans:
         if len(t["events"]) == 1 and rnd.random() < k["p_assign_style"] and t["events"][0] not in seen_assign:
             t["assign"] = t["events"][0]
